@@ -180,6 +180,9 @@ def run(m, tier):
     from rules import common_block
     results += common_block.c08_engine_rules(m, blocks, ends)
     results.append(r4_opener_index(m))
+    from rules import engine_tables
+    results.append(engine_tables.end_stmt_rule(m, "C08.R5"))
+    results.append(engine_tables.bracket_rule(m, "C08.R6"))
     expl = ("Decides the structural clauses of C08: the table of block constructs extracted from every "
             "BlockBase.match call site agrees with the Fortran 2003/2008 rules (opening/END pair, name and label "
             "comparison flags), every END statement class names its keyword and refuses a bare END where the standard "
